@@ -148,6 +148,7 @@ class Engine:
         self.call_depth = 0
         self.loop_ordinal = 0
         self.paths = 0
+        self.guard_stack = []
 
     # ------------------------------------------------------------------ obligations
     def emit(self, kind, label, st, goal, note="", expect="unsat", hyps_extra=(), split=True):
@@ -163,10 +164,16 @@ class Engine:
         n = sum(1 for o in self.obligations if o.oid == oid or o.oid.startswith(oid + "#"))
         if n:
             oid = f"{oid}#{n}"
-        ob = Obligation(oid=oid, kind=kind, hyps=tuple(st.pc) + tuple(hyps_extra), goal=goal, target=con.target,
+        ob = Obligation(oid=oid, kind=kind, hyps=tuple(st.pc) + tuple(self.guard_stack) + tuple(hyps_extra), goal=goal, target=con.target,
                         probes=dict(self.current_probes), note=note, expect=expect)
         self.obligations.append(ob)
         return ob
+
+    def assume_here(self, st, cond):
+        """add a fact that holds at the current evaluation point (under the guards of enclosing and/or/if-expressions)"""
+        if self.guard_stack:
+            cond = z3.Implies(z3.And(*self.guard_stack), cond)
+        st.pc = st.pc + (cond,)
 
     def feasible(self, st) -> bool:
         if not st.pc:
